@@ -711,7 +711,7 @@ def r_rangefor(ctx, toks):
 
 VEC_ELEM = {'vec_double': 'double', 'vec_ndsize': 'ndsize_t', 'vec_opt_pair': 'opt_pair', 'vec_pair': 'pair_ndsize',
             'vec_dpair': 'pair_double', 'vec_int': 'int', 'vec_NDSize': 'NDSize', 'vec_Dimension': 'Dimension',
-            'vec_nstr': 'nstring', 'vec_DataArray': 'DataArray', 'vec_Source': 'Source', 'vec_Section': 'Section', 'vec_Block': 'Block', 'vec_Tag': 'Tag', 'vec_MultiTag': 'MultiTag', 'vec_Property': 'Property', 'vec_Feature': 'Feature', 'vec_Variant': 'Variant', 'vec_DataView': 'DataView', 'vec_string': 'nstring'}
+            'vec_nstr': 'nstring', 'vec_DataArray': 'DataArray', 'vec_Source': 'Source', 'vec_Section': 'Section', 'vec_Block': 'Block', 'vec_Tag': 'Tag', 'vec_MultiTag': 'MultiTag', 'vec_Property': 'Property', 'vec_Feature': 'Feature', 'vec_Column': 'Column', 'vec_Variant': 'Variant', 'vec_DataView': 'DataView', 'vec_string': 'nstring'}
 
 def r_pair_ctor(ctx, toks):
     """pair_ndsize(a, b) -> mk_pair_ndsize(a, b)"""
